@@ -18,6 +18,7 @@ func VP_C17_Add() {
 		top = vpComp("top", 1)
 	}
 	ext := zzvp.Str("ext", 1+zzvp.Choose(2), "a-z")
+
 	plain := vpComp("pl", maxc)
 	dirPath := dir
 	if nested {
@@ -199,4 +200,52 @@ func VP_C17_Forms() {
 		zzvp.Assert(!vpContains(u, ".goit/"), "status never lists Goit's own files")
 	}
 	zzvp.Done()
+}
+
+// VP_C17_DottedExt: an extension entry of two parts ('*.tar.gz'-like, letters free): matching files, at top level and in a
+// directory, are neither staged nor listed; files that end in only one of the parts are.
+func VP_C17_DottedExt() {
+	vpInitRepo()
+	w := zzvp.Root()
+	e1, e2 := zzvp.Str("ex1", 1, "a-z"), zzvp.Str("ex2", 1+zzvp.Choose(2), "a-z")
+	ext := e1 + "." + e2
+	ignored := []string{"a." + ext, "sub/b." + ext}
+	visible := []string{"c." + e2, "d." + e1 + ".txt", "sub/e." + e1}
+	zzvp.Assume(e1 != e2 && e2 != "txt")
+	for _, p := range append(append([]string{}, ignored...), visible...) {
+		zzvp.WriteFile(w+"/"+p, []byte("x"))
+	}
+	zzvp.WriteFile(w+"/.goitignore", []byte("*."+ext+"\n"))
+	st := vpParseStatus(zzvp.Run("status").Out)
+	for _, p := range ignored {
+		zzvp.Assert(!vpHasStr(st.untracked, p), "a '*.ext' entry hides files with that extension")
+	}
+	for _, p := range visible {
+		zzvp.Assert(vpHasStr(st.untracked, p), "a file whose extension is not ignored is visible")
+	}
+	var r zzvp.Result
+	switch zzvp.Choose(3) {
+	case 0:
+		r = zzvp.Run("add", ".")
+	case 1:
+		r = zzvp.Run("add", "sub", "a."+ext)
+	default:
+		r = zzvp.Run("add", "sub/b."+ext)
+	}
+	zzvp.Assert(r.Exit == 0 || r.Exit == 1, "add ends with status 0 or 1")
+	idx, _ := vpReadIndex()
+	for _, p := range ignored {
+		_, found := vpFindPair(idx, p)
+		zzvp.Assert(!found, "no path inside .goit and no path excluded by .goitignore is ever staged")
+	}
+	zzvp.Done()
+}
+
+func vpHasStr(l []string, s string) bool {
+	for _, x := range l {
+		if x == s {
+			return true
+		}
+	}
+	return false
 }
